@@ -2,19 +2,24 @@
 (* spec -> code: every interface list x every maximal sequence of boot, restart*,        *)
 (* shutdown, with a fresh choice at every (re)start of which interfaces come up and of   *)
 (* whether the new responder thread is held back (then "run" releases the pending        *)
-(* threads at every later point); a probe request follows whenever no thread is pending. *)
-EXTENDS DiscoveryServer, Json
+(* threads at every later point).  Restart / shutdown appear as their tear-down steps    *)
+(* (stop_responder, close_iface i in index order - the driver makes the interfaces       *)
+(* register in that order) followed by the restart / shutdown proper; a probe request    *)
+(* follows every step whenever no thread is pending.                                     *)
+EXTENDS DiscoveryServer, Json, FiniteSetsExt
 VARIABLE hist
 ProbeDue == created = {} /\ last.kind \notin {"probe", "none"}
-Start(k) == [act |-> k, up |-> up', held |-> created' # created,
-             exp |-> [listening |-> IF phase' = "up" THEN Tcp(cfg) \cap up' ELSE {}]]
+Lis == [listening |-> IF phase' \in {"up", "closing"} THEN Tcp(cfg) \cap up' ELSE {}]
+Start(k) == [act |-> k, up |-> up', held |-> created' # created, exp |-> Lis]
 GInit == WInit /\ hist = <<>>
 GNext == IF ProbeDue
          THEN Probe /\ hist' = Append(hist, [act |-> "probe", exp |-> [answers |-> last'.answers]])
          ELSE \/ Boot /\ hist' = <<[act |-> "boot", cfg |-> cfg] @@ Start("boot")>>
+              \/ StopResponder /\ hist' = Append(hist, [act |-> "stop_responder", exp |-> Lis])
+              \/ up # {} /\ CloseInterface(Min(up)) /\ hist' = Append(hist, [act |-> "close_iface", i |-> Min(up), exp |-> Lis])
               \/ Restart /\ hist' = Append(hist, Start("restart"))
-              \/ Shutdown /\ hist' = Append(hist, [act |-> "shutdown", exp |-> [listening |-> {}]])
-              \/ RunAll /\ hist' = Append(hist, [act |-> "run", exp |-> [listening |-> IF phase = "up" THEN Tcp(cfg) \cap up ELSE {}]])
+              \/ Shutdown /\ hist' = Append(hist, [act |-> "shutdown", exp |-> Lis])
+              \/ phase # "closing" /\ RunAll /\ hist' = Append(hist, [act |-> "run", exp |-> Lis])
 GSpec == GInit /\ [][GNext]_<<wvars, hist>>
 Emit1 == (hist # <<>> /\ ~ ENABLED GNext) => PrintT(<<"BEH", ToJson(hist)>>)
 =============================================================================
